@@ -3,6 +3,7 @@
 use crate::k3::spec_text;
 use crate::planners::*;
 use crate::util::*;
+#[allow(unused_imports)]
 use rustfft::{FftDirection, FftPlannerAvx, FftPlannerScalar, FftPlannerSse};
 use std::collections::BTreeSet;
 use std::io::Write;
@@ -33,6 +34,7 @@ fn avx_candidates<T: rustfft::FftNum>(lens: &[usize]) -> BTreeSet<usize> {
             out.insert(d);
         }
         out.insert(n);
+        #[cfg(feature = "avx")]
         if let Ok(text) = catch(|| FftPlannerAvx::<T>::new().unwrap().verif_plan(n, FftDirection::Forward)) {
             // (AvxPlan len (Raders p) [..]) / (AvxPlan len (Bluesteins p m) [..])
             if let Some(i) = text.find("(Raders ") {
@@ -83,6 +85,7 @@ fn run_history<T: rustfft::FftNum>(planner: &str, steps: &[(usize, FftDirection)
                 }
             }
         }
+        #[cfg(feature = "sse")]
         "sse" => {
             let mut p = FftPlannerSse::<T>::new().expect("sse unavailable");
             for &(n, d) in steps {
@@ -103,7 +106,8 @@ fn run_history<T: rustfft::FftNum>(planner: &str, steps: &[(usize, FftDirection)
                 }
             }
         }
-        _ => {
+        #[cfg(feature = "avx")]
+        "avx" => {
             let mut p = FftPlannerAvx::<T>::new().expect("avx unavailable");
             for &(n, d) in steps {
                 let r = catch(|| {
@@ -127,6 +131,7 @@ fn run_history<T: rustfft::FftNum>(planner: &str, steps: &[(usize, FftDirection)
                 }
             }
         }
+        _ => out.push("ERR planner kind not compiled in".to_string()),
     }
     out.join(" # ")
 }
